@@ -614,7 +614,10 @@ def mnps_requires(c):
 
 def seq_all(sv, f):
     j = z3.Int("j!sa")
-    return z3.ForAll([j], z3.Implies(z3.And(0 <= j, j < sv.n), f(z3.Select(sv.arr, j))), patterns=[z3.Select(sv.arr, j)])
+    try:
+        return z3.ForAll([j], z3.Implies(z3.And(0 <= j, j < sv.n), f(z3.Select(sv.arr, j))), patterns=[z3.Select(sv.arr, j)])
+    except z3.Z3Exception:
+        return z3.ForAll([j], z3.Implies(z3.And(0 <= j, j < sv.n), f(z3.Select(sv.arr, j))))
 
 
 def seq_some(sv, f):
@@ -807,7 +810,10 @@ def sgd_ensures(c):
 
 
 def all_channels_requires(c, only):
-    h, sch = c.old, T(c.self)
+    return all_channels_requires_h(c.old, T(c.self), only)
+
+
+def all_channels_requires_h(h, sch, only):
     key = z3.Const("key!acr", PStr)
     out = []
     for nm, cl in INV(h, sch_get(h, sch, key), only=only) + EOMWF(h, sch_get(h, sch, key)) + [("valid_channel", valid_channel_f(cs_chan(sch_get(h, sch, key))))]:
